@@ -207,6 +207,8 @@ Definition kind_leaves_pipes_open (k : N) : bool := (k =? 4) || (k =? 5).
 Inductive sop :=
 | OReq (r : rid) (kind : N)  (* create the future and poll it once *)
 | OPoll                      (* poll every pending future once, in increasing id order *)
+| OAdvance (secs : N)        (* the clock jumps ahead by secs seconds, then every pending future is polled once:
+                                waiting time is not an event — nobody gets a token, or starts without one, for having waited *)
 | OWait (r : rid)            (* poll r's future until the process has exited (and the token is back) *)
 | OFinish (r : rid)          (* close what still holds r's pipes and poll r's future to completion *)
 | ODrop (r : rid).           (* drop whatever r is at this point: pending future, Acquired, or Child *)
@@ -273,6 +275,7 @@ Definition sop_step (ks : list (rid * N)) (s : st) (o : sop) : st * list event :
         let '(s2, d2) := step_settle s1 (poll_events ks r) in
         (s2, d1 ++ d2)
   | OPoll => poll_all ks s (pending s)
+  | OAdvance _ => poll_all ks s (pending s)
   | OWait r =>
       if mem r (running s) then
         let k := kind_of r ks in
